@@ -236,7 +236,9 @@ func checkC18(c *Ctx) {
 		ok := false
 		eachInstr(mj, func(in ssa.Instruction) {
 			if call, isCall := in.(*ssa.Call); isCall && call.Call.StaticCallee() != nil && call.Call.StaticCallee().String() == "encoding/json.Marshal" {
-				if afterOf(fl.At(in), func(s string) bool { return strings.HasPrefix(s, "slices.SortFunc[") || strings.HasPrefix(s, "slices.Sort[") || strings.HasPrefix(s, "sort.") }) {
+				if afterOf(fl.At(in), func(s string) bool {
+					return strings.HasPrefix(s, "slices.SortFunc[") || strings.HasPrefix(s, "slices.Sort[") || strings.HasPrefix(s, "sort.")
+				}) {
 					ok = true
 				}
 			}
